@@ -41,7 +41,22 @@ func (ex *Exec) mkKeyKind(id *Term, priv, hashed bool) Value {
 	o.methods = map[string]func(ex *Exec, args []Value) Value{
 		"Type": func(ex *Exec, args []Value) Value { return mkConst(32, 1) }, // Ed25519
 		"Raw": func(ex *Exec, args []Value) Value {
-			return Tuple{[]Value{id}, Iface{}}
+			// the shapes of real raw keys: 32 key bytes for keys that embed in their
+			// peer ID; a DER structure for the others, whose first 33 bytes are the same
+			// for every key of one type and size
+			var raw []Value
+			if hashed {
+				for i := 0; i < 33; i++ {
+					raw = append(raw, byteConst(0x30))
+				}
+				raw = append(raw, id)
+			} else {
+				raw = append(raw, id)
+				for i := 0; i < 31; i++ {
+					raw = append(raw, byteConst(0xed))
+				}
+			}
+			return Tuple{raw, Iface{}}
 		},
 		"Equals": func(ex *Exec, args []Value) Value {
 			other, ok := args[0].(Iface).v.(*nativeObj)
